@@ -883,16 +883,20 @@ TRUSTED = [
     "Coq 8.16.1 kernel and VM (vm_compute in the finite case analyses of detectencoding_str); no native_compute",
     "translate/codec.py (fail-closed Python-ast translator; fixed reading of each construct in coq/theories/CodecPyLib.v); "
     "the generated functions are additionally compared with the source functions on every run",
-    "Section hypotheses about the underlying per-encoding codec (CodecFacts.v): dstep_concat, dshot, estep_concat, eshot "
-    "(+ the inverse hypothesis of decode_encode); validated against CPython's codecs on every run, see "
+    "Section hypotheses about the underlying per-encoding codec (CodecFacts.v): dstep_concat, dstep_error, dshot_spec, "
+    "estep_concat, estep_error, eshot_spec (+ estep_final_irrelevant for streamwriter_decided, + the inverse / rule-head "
+    "premises of the decode_encode theorems); PROVED in CodecInstances.v for the Gallina utf-8, utf-16-le/be, utf-32-le/be, "
+    "latin-1, ascii decoders and all Gallina encoders; validated against CPython's codecs on every run, see "
     "coverage.codec_hypotheses_failing_on_cpython (CPython's utf-16/utf-32 one-shot decoders accept BOM-less input that "
     "their incremental decoders reject; utf-8-sig's incremental decoder returns '' for a truncated BOM)",
     "extraction (ExtrOcamlBasic only) + ocamlfind ocamlopt, ocaml/codec_driver.ml",
-    "coq/theories/CodecConcrete.v: Gallina utf-8/-sig, utf-16*, utf-32*, latin-1, ascii codecs (strict) used only to RUN the "
-    "model against the implementation; not part of any theorem except the non-vacuity examples",
+    "coq/theories/CodecConcrete.v: Gallina utf-8/-sig, utf-16*, utf-32*, latin-1, ascii codecs (strict, CPython-exact error "
+    "timing): that they ARE CPython's codecs is checked only differentially (every call of every case); the closed instances "
+    "incdec_chunking_concrete / incenc_chunking_concrete / decode_encode_detected_onebyte are theorems about them",
     "correspondence harness harness/props/c14.py (generators, canonicalisation: exception class -> enum; the result of every "
     "call up to and including the raising one is compared); CodecPyLib.lower (per-character str.lower table generated from the interpreter, Gen/PyTables.v) for encoding.lower()",
-    "modelled by hand, not verified: decode, encode, IncrementalDecoder.decode, IncrementalEncoder.encode (Codec.v)",
+    "modelled by hand, not verified: decode, encode, IncrementalDecoder.decode, IncrementalEncoder.encode, StreamWriter.encode "
+    "(Codec.v)",
 ]
 ASSUME = [
     "Print Assumptions for every theorem of props/C14.v: see coverage.print_assumptions",
